@@ -114,9 +114,15 @@ func fileShape(f *mp4.File) string {
 
 // ObserveFile: what the model has to reproduce for a whole file.
 func ObserveFile(in []byte) string {
+	s, _ := ObserveFileEnc(in)
+	return s
+}
+
+// ObserveFileEnc: the observables of one file and, when File.Encode succeeded, the bytes it wrote (the second generation's input)
+func ObserveFileEnc(in []byte) (string, []byte) {
 	f, oc, _ := DecodeFileSR(in)
 	if oc != "ok" {
-		return "dec=" + oc
+		return "dec=" + oc, nil
 	}
 	shape := fileShape(f)
 	ew, ewo, _ := EncodeFileW(f)
@@ -127,7 +133,10 @@ func ObserveFile(in []byte) string {
 		}
 		return o
 	}
-	return fmt.Sprintf("dec=ok;%s;encw=%s;encsw=%s", shape, g(ewo, ew), g(eso, es))
+	if ewo != "ok" {
+		ew = nil
+	}
+	return fmt.Sprintf("dec=ok;%s;encw=%s;encsw=%s", shape, g(ewo, ew), g(eso, es)), ew
 }
 
 // ---------------------------------------------------------------- whole-file cases
